@@ -72,9 +72,8 @@ func newAmmWorld(rng *Rng, out *Out, nUsers int, blockedIdx int) *ammWorld {
 	w.app.ClpKeeper.SetPmtpRateParams(w.ctx, clptypes.PmtpRateParams{PmtpPeriodBlockRate: sdk.ZeroDec(), PmtpCurrentRunningRate: sdk.ZeroDec(), PmtpInterPolicyRate: sdk.ZeroDec()})
 	w.app.ClpKeeper.SetRewardParams(w.ctx, &clptypes.RewardParams{LiquidityRemovalLockPeriod: 0, LiquidityRemovalCancelPeriod: 2, RewardsLockPeriod: 0, RewardsEpochIdentifier: "hour", RewardsDistribute: false})
 	w.app.ClpKeeper.SetProviderDistributionParams(w.ctx, &clptypes.ProviderDistributionParams{})
-	lpp := w.app.ClpKeeper.GetLiquidityProtectionParams(w.ctx)
-	lpp.IsActive = false
-	w.app.ClpKeeper.SetLiquidityProtectionParams(w.ctx, lpp)
+	// liquidity protection: off at the start, threshold 0 (policy() / the directed histories turn it on)
+	w.setLiquidityProtection(false, big.NewInt(0), "cusdc", big.NewInt(0))
 	w.app.ClpKeeper.SetSwapFeeParams(w.ctx, &clptypes.SwapFeeParams{DefaultSwapFeeRate: sdk.NewDecWithPrec(3, 3)})
 	w.app.ClpKeeper.SetClpWhiteList(w.ctx, []sdk.AccAddress{w.users[0]})
 	w.cfg("whitelist " + w.users[0].String())
@@ -160,7 +159,7 @@ func (w *ammWorld) dump() string {
 	for _, b := range bank {
 		fmt.Fprintf(&sb, " %s %s %s", b.a, b.d, b.v)
 	}
-	fmt.Fprintf(&sb, " accu %s height %d", k.GetBlockDistributionAccu(w.ctx), w.height)
+	fmt.Fprintf(&sb, " accu %s height %d lpcur %s", k.GetBlockDistributionAccu(w.ctx), w.height, k.GetLiquidityProtectionRateParams(w.ctx).CurrentRowanLiquidityThreshold)
 	return sb.String()
 }
 
@@ -382,7 +381,9 @@ func (w *ammWorld) step() {
 func (w *ammWorld) policy() {
 	rng := w.rng
 	k := w.app.ClpKeeper
-	switch rng.Intn(10) {
+	switch rng.Intn(11) {
+	case 10:
+		w.randomLiquidityProtection()
 	case 8: // enable / disable margin on a pool (x/margin params.Pools)
 		w.setMarginPool(ammTokens[rng.Intn(len(ammTokens))], rng.Chance(2, 3))
 	case 9: // the pool-health threshold below which removals from a margin-enabled pool are refused
@@ -512,6 +513,49 @@ func (w *ammWorld) setMarginPool(sym string, on bool) {
 	mp.Pools = l
 	w.app.MarginKeeper.SetParams(w.ctx, &mp)
 	w.cfg("marginpool " + sym + " " + b2s(on))
+}
+
+// setLiquidityProtection writes both liquidity-protection records (params: switch, maximum, the asset
+// the threshold is denominated in; rate params: the current threshold).
+func (w *ammWorld) setLiquidityProtection(active bool, max *big.Int, asset string, cur *big.Int) {
+	k := w.app.ClpKeeper
+	lpp := k.GetLiquidityProtectionParams(w.ctx)
+	lpp.IsActive = active
+	lpp.MaxRowanLiquidityThreshold = sdk.NewUintFromBigInt(max)
+	lpp.MaxRowanLiquidityThresholdAsset = asset
+	k.SetLiquidityProtectionParams(w.ctx, lpp)
+	k.SetLiquidityProtectionCurrentRowanLiquidityThreshold(w.ctx, sdk.NewUintFromBigInt(cur))
+	w.cfg(fmt.Sprintf("lp %s %s %s %s", b2s(active), max, asset, cur))
+}
+
+// randomLiquidityProtection: on 3/4; denominated in the native token, in cusdc (the default) or in any
+// token (which may have no pool); the current threshold full, partly used, exhausted or (an admin lowered
+// the maximum) above the maximum.
+func (w *ammWorld) randomLiquidityProtection() {
+	rng := w.rng
+	asset := "rowan"
+	switch rng.Intn(3) {
+	case 0:
+		asset = "cusdc"
+	case 1:
+		asset = ammTokens[rng.Intn(len(ammTokens))]
+	}
+	max := rng.Amount(85)
+	cur := new(big.Int).Set(max)
+	switch rng.Intn(6) {
+	case 0:
+		cur = big.NewInt(0)
+	case 1, 2:
+		cur = new(big.Int).Mod(rng.BigBits(96), new(big.Int).Add(max, big.NewInt(1)))
+	case 3:
+		if rng.Chance(1, 4) {
+			cur = new(big.Int).Add(max, rng.Amount(40))
+		}
+	}
+	lpp := w.app.ClpKeeper.GetLiquidityProtectionParams(w.ctx)
+	lpp.EpochLength = []uint64{1, 3, 14400}[rng.Intn(3)] // blocks to replenish the whole threshold (BeginBlocker)
+	w.app.ClpKeeper.SetLiquidityProtectionParams(w.ctx, lpp)
+	w.setLiquidityProtection(rng.Chance(3, 4), max, asset, cur)
 }
 
 func (w *ammWorld) setRemovalThreshold(t *big.Int) {
@@ -1038,6 +1082,32 @@ func init() {
 			w.setHeight(15)
 			w.opEpoch()
 		}
+		// D15: liquidity protection on, the threshold denominated in (a) a token without a pool (the default
+		// cusdc while only ceth has a pool), (b) the native token, (c) the pool's own token; swaps in both
+		// directions around the threshold, asymmetric adds on both sides, then the epoch hook in pool mode
+		// and in wallet mode (re-investment and payout must not depend on the protection settings)
+		for _, asset := range []string{"cusdc", "rowan", "ceth"} {
+			for _, dist := range []bool{false, true} {
+				w := newAmmWorld(rng, out, 4, -1)
+				w.fundAll()
+				w.setDistribute(dist)
+				w.opCreate(w.users[0], "ceth", e18(1000), e18(50))
+				w.opAdd(w.users[1], "ceth", e18(200), e18(10))
+				w.setLiquidityProtection(true, e18(40), asset, e18(25))
+				w.opSwap(w.users[2], "rowan", "ceth", e18(30), big.NewInt(0))
+				w.opSwap(w.users[2], "rowan", "ceth", e18(20), big.NewInt(0))
+				w.opSwap(w.users[2], "ceth", "rowan", e18(1), big.NewInt(0))
+				w.opSwap(w.users[2], "ceth", "rowan", e18(3), big.NewInt(0))
+				w.opAdd(w.users[3], "ceth", e18(50), big.NewInt(0))
+				w.opAdd(w.users[3], "ceth", big.NewInt(0), e18(2))
+				w.opAdd(w.users[3], "ceth", e18(1000), big.NewInt(0))
+				w.opBucket(w.users[0], "ceth", e18(3))
+				w.setHeight(5)
+				w.opEpoch()
+				w.opSwap(w.users[2], "rowan", "ceth", e18(1), big.NewInt(0))
+				w.opAdd(w.users[1], "ceth", e18(5), e18(1))
+			}
+		}
 		// D14: a pool with margin liabilities on the output side and a swap whose priced output equals the pool's
 		// real balance of the output token exactly (found by bisection on the real CalcSwapResult): it must fail,
 		// as must the amounts next to it that price above the balance
@@ -1218,6 +1288,9 @@ func init() {
 				for _, d := range w.denoms {
 					w.fund(u, d, huge)
 				}
+			}
+			if rng.Chance(1, 3) {
+				w.randomLiquidityProtection()
 			}
 			w.observe("init")
 			for i := 0; i < histLen && done < n && !w.halted; i++ {
